@@ -92,7 +92,7 @@ theorem shell_of_label (r dfreq : ℚ) (hr : 0 ≤ r) (hd : 0 < dfreq) (hsmall :
 
 /-- The reported frequency of shell `i` is its mid-point `(i + 1/2)·dfreq`. -/
 theorem shell_freq (i : Int) (dfreq : ℚ) : Gen.fscShellFreq i dfreq = ((i : ℚ) + 1 / 2) * dfreq := by
-  simp only [Gen.fscShellFreq]
+  unfold Gen.fscShellFreq; ring
 
 /-- Default shell width `1.5 / min(shape)` is at least `1 / min(shape)`. -/
 theorem default_dfreq (n : Int) (hn : 1 ≤ n) :
